@@ -188,19 +188,24 @@ impl ListItem {
 //@}
 //@after 1 self.get_mut(idx).use_index();{
     let ghost h1 = *self;
+    let ghost hr = h1;
     proof { lemma_update_frame(h0, h1, lo, hi, idx as int, ListItem { used_index: true, ..h_it(h0, idx as int) }); }
 //@}
 //@after 1 let next = self.get_mut(idx).next();{
-    let ghost h1a = *self;
-    proof { assert(h1.items@ =~= h1a.items@) by { reveal(h_it); } lemma_cells_same(h1, h1a); }
+    // the two reads go through `get_mut` and leave the items as they are; `hr` names the state after the later of the two (in
+    // either order: the same ghost name is re-bound)
+    let ghost hr0 = hr;
+    let ghost hr = *self;
+    proof { assert(hr0.items@ =~= hr.items@) by { reveal(h_it); } lemma_cells_same(hr0, hr); assert(h1.items@ =~= hr.items@) by { reveal(h_it); } lemma_cells_same(h1, hr); }
 //@}
 //@after 1 let prev = self.get_mut(idx).prev();{
-    let ghost h1b = *self;
-    proof { assert(h1a.items@ =~= h1b.items@) by { reveal(h_it); } lemma_cells_same(h1a, h1b); }
+    let ghost hr0 = hr;
+    let ghost hr = *self;
+    proof { assert(hr0.items@ =~= hr.items@) by { reveal(h_it); } lemma_cells_same(hr0, hr); assert(h1.items@ =~= hr.items@) by { reveal(h_it); } lemma_cells_same(h1, hr); }
 //@}
 //@after 1 *self.get_mut(prev).next_mut() = next;{
     let ghost h2 = *self;
-    proof { lemma_update_frame(h1b, h2, lo, hi, prev as int, ListItem { next: next, ..h_it(h1b, prev as int) }); }
+    proof { lemma_update_frame(hr, h2, lo, hi, prev as int, ListItem { next: next, ..h_it(hr, prev as int) }); }
 //@}
 //@after 1 *self.get_mut(next).prev_mut() = prev;{
     let ghost h3 = *self;
@@ -218,7 +223,7 @@ impl ListItem {
         assert(l_vac(f0, lo, hi, prev as int) && l_vac(f0, lo, hi, next as int));
         assert forall|j: int| lo <= j < hi implies #[trigger] f3(j) == cell_after_remove(f0(j), j, idx as int, prev as int, next as int) by {
             assert(h_it(*self, j) == h_it(h3, j));
-            assert(h_it(h1b, j) == h_it(h1a, j) && h_it(h1a, j) == h_it(h1, j));
+            assert(h_it(hr, j) == h_it(h1, j));
         }
         lemma_remove(f0, f3, h0.head_idx, self.head_idx, lo, hi, idx as int, prev as int, next as int);
         assert forall|j: int| h_active(h0, j) implies h_used_base(*self, j) == h_used_base(h0, j)
@@ -282,13 +287,15 @@ impl ListItem {
 //@rules R16
 //@loop 1{
     invariant_except_break verif_r.is_none(),
-    invariant h_basic(*self), start <= verif_i <= end,
-        h_lo(*self) <= start as int, end as int <= h_hi(*self),
-        forall|b: int| start <= b < verif_i ==> h_used_base(*self, b),
+    invariant h_basic(*self), verif_a <= verif_i <= verif_b,
+        verif_a as int == block_idx as int * self.block_len as int, verif_b as int == verif_a as int + self.block_len as int,
+        h_lo(*self) <= verif_a as int, verif_b as int <= h_hi(*self),
+        forall|b: int| verif_a <= b < verif_i ==> h_used_base(*self, b),
     ensures
-        match verif_r { Some(b) => start <= b < end && !h_used_base(*self, b as int), None => verif_i == end },
-        forall|b: int| start <= b < verif_i ==> h_used_base(*self, b), start <= verif_i <= end,
-    decreases end - verif_i
+        match verif_r { Some(b) => verif_a <= b < verif_b && !h_used_base(*self, b as int), None => verif_i == verif_b },
+        forall|b: int| verif_a <= b < verif_i ==> h_used_base(*self, b), verif_a <= verif_i <= verif_b,
+        verif_a as int == block_idx as int * self.block_len as int, verif_b as int == verif_a as int + self.block_len as int,
+    decreases verif_b - verif_i
 //@}
 //@fn push_block
 //@ret r
@@ -407,7 +414,7 @@ impl ListItem {
         lemma_update_frame(hp, ha, lo1, hi1, idx as int, ListItem { next: 0, prev: 0, used_base: false, used_index: false });
     }
 //@}
-//@before 1 if let Some(head_idx) = self.head_idx {{
+//@after 1 for idx in{
     let ghost hl = *self;
     proof {
         lemma_congr(h_cells(hn), h_cells(hl), hn.head_idx, lo1, hi0);
